@@ -9,17 +9,21 @@ Property theorems only.  `P : PyStr` are the character tables of the running Pyt
 of them**, so nothing here depends on the generated Unicode tables; the driver's instance
 (`Totality.Py.real`) is compared with the running interpreter by `./check C14`.
 
-`vErr = false` is the repaired `Color.parse` (pending_fixes/C14-color-parse-rgb-valueerror.diff);
+`vErr = false` is the repaired `Color.parse` (fix c34676b, the former
+pending_fixes/C14-color-parse-rgb-valueerror.diff): it is what /repo contains now;
 `vErr = true` is rich 9.10.0 as found, for which the `old_…` witnesses show the escape (F9) at every
 entry point that reaches `Color.parse`.
 
 Termination: every function of `Model/Totality.lean` is structurally recursive (accepted by Lean
 without `partial` / fuel); so are C04's tokenizer and C20's lookup which it calls.
 
-Not stated here (see the final report / MANIFEST): `decode_total` (C19's model), `text_ctor_total` and
-`print_plain_total` (C05 / C02 models: `Model/Text.lean` and `Model/ColorParse.lean` both declare
-`RichModel.Variant` and cannot be imported together), the table solver's totality (C07's model; the
-two witnesses at the end show where it does raise).
+Not stated here (see the MANIFEST note of harness/props/c14.py).  Proved since in the files of the properties that
+own the models: the decoder's totality as `C19.decode_total` (Props/C19.lean), the table solver's as
+`C07.calc_widths_total` / `C07.table_render_total` / `C07.rich_measure_total` (Props/C07.lean, for
+`noColumnsAsserts = flexNegative = false`; the two witnesses at the end of this file show where rich 9.10.0 as found
+did raise, before fixes 1d61bac and ab98098), `Columns` as `C08.columns_repaired_never_raises` (Props/C08.lean).
+Still without a theorem: `text_ctor_total` and `print_plain_total` (C05 / C02 models: `Model/Text.lean` and
+`Model/ColorParse.lean` both declare `RichModel.Variant` and cannot be imported together).
 -/
 namespace RichModel.C14
 open RichModel RichModel.Totality AsciiStr
@@ -34,7 +38,7 @@ theorem color_parse_total (P : PyStr) (s : List Char) :
   | ok c => exact .inl ⟨c, rfl⟩
   | error e => rw [color_parse_err P s e h]; exact .inr rfl
 
-/-- Today's code: besides `ColorParseError` the only exception is the `ValueError` of `int()`. -/
+/-- rich 9.10.0 as found (`vErr = true`, before fix c34676b): besides `ColorParseError` the only exception is the `ValueError` of `int()`. -/
 theorem old_color_parse_errors (P : PyStr) (s : List Char) (e : Exc) (h : UColor.parse P true s = .error e) :
     e = .colorParseError ∨ e = .valueError :=
   parseNorm_err_old P _ e h
@@ -163,7 +167,9 @@ theorem panel_total (cw : Char → Nat) (env : Env) (v : Frames.Variant) (o : Pa
 
 example : ([0, 1] : List Nat).length = 1 ∨ ([0, 1] : List Nat).length = 2 ∨ ([0, 1] : List Nat).length = 4 := by decide
 
-/-- NEW finding (C07's model of `_calculate_column_widths` reproduces it): a table without columns
+/-- NEW finding in rich 9.10.0 as found, repaired in /repo by fix 1d61bac (C07's model of `_calculate_column_widths`
+reproduces it at `Flags.repaired`, which repairs only C07's first three defects and leaves `noColumnsAsserts` and
+`flexNegative` on; `Flags.allRepaired` is the variant /repo contains now, see `C07.calc_widths_total`): a table without columns
 that is asked to expand — `Table(expand=True)`, `Table(width=10)`, `Table(min_width=10)` — fails the
 `assert total_ratio > 0` of `ratio_distribute`. -/
 theorem old_table_no_columns_raises :
@@ -176,7 +182,7 @@ example : ({ columns := [] } : Table).calcWidths Flags.repaired 20 = some [] := 
 /-- an empty cell (header `""`, no padding) -/
 def emptyCell : Cell := { measure := fun _ => ⟨0, 0⟩, renderLines := fun _ => [] }
 
-/-- NEW finding: an expanding table with `min_width`, a `ratio=1` and a `ratio=0` column, rendered with no
+/-- NEW finding in rich 9.10.0 as found, repaired in /repo by fix ab98098: an expanding table with `min_width`, a `ratio=1` and a `ratio=0` column, rendered with no
 room left for the columns (`max_width - extra_width = 0`: the width is spent on the borders):
 `ratio_distribute(0, [1, 0], [1, 1])` hands the zero-ratio column the *remaining* −1, the widths sum to 0 and
 the padding step's `ratio_distribute(…, widths)` fails its assertion. -/
